@@ -22,7 +22,7 @@ FACTORY = {
     "sel a>k": lambda ch: ("sel", ch, ("gt", A_, ("lit", "$k"))),
     "sel b in [a,k]": lambda ch: ("sel", ch, ("inseq", B_, (A_, ("lit", "$k")))),
     "sel a in range": lambda ch: ("sel", ch, ("inrange", A_, 0, 5, 2)),
-    "calc n=-a": lambda ch: ("calc", ch, "n", ("neg", A_)),
+    "calc n=-a": lambda ch: ("calc", ch, "z", ("neg", A_)),
     "sel -a<b": lambda ch: ("sel", ch, ("lt", ("neg", A_), B_)),
     "dedup": lambda ch: ("dedup", ch),
     "sort -b,a": lambda ch: ("sort", ch, ((B_, False), (A_, True))),
